@@ -171,8 +171,14 @@ def gen_olayer_case(rng):
                 ts=[[rng.randint(-2, 2) / 2 for _ in range(len(layers[k - 1]["W"]))] for _ in range(n)], bs=rng.choice([1, 2, None]))
 
 
+def gen_gradcam_op_case(rng):
+    return dict(stream="gradcam_op", method=rng.choice(["GradCAM", "GradCAMPP"]), seed=rng.randrange(1 << 30),
+                shape=[rng.choice([5, 6]), rng.choice([4, 7]), 1], n=rng.randint(1, 2))
+
+
 def generate(rng, tier):
     cases = gen_dispatch()
+    cases += [gen_gradcam_op_case(rng) for _ in range(3 if tier == "quick" else 12)]
     n = 66 if tier == "quick" else 700
     for _ in range(n):
         r = rng.random()
@@ -182,6 +188,8 @@ def generate(rng, tier):
 
 def nontrivial(case):
     s = case["stream"]
+    if s == "gradcam_op":
+        return True
     if s == "dispatch":
         return case["spec"][0] != "none"
     if s == "operator":
@@ -468,6 +476,9 @@ def run_olayer(case):
     xs = np.array(case["xs"], np.float32)
     ts = np.array(case["ts"], np.float32)
     trunc = tf.keras.Model(model.input, model.get_layer(case["layers"][case["kept"] - 1]["name"]).output)
+    # interleaving: an explainer on the FULL model exists before the ones built with output_layer (same Input tensor, and
+    # often the same output width): which model an explainer holds must not depend on it
+    Saliency(model)
     res = dict(methods={})
     specs = [("Saliency", Saliency, {}), ("GradientInput", GradientInput, {}),
              ("IntegratedGradients", IntegratedGradients, dict(steps=5)),
@@ -483,8 +494,45 @@ def run_olayer(case):
     return res
 
 
+def run_gradcam_op(case):
+    """Grad-CAM(++) built with a custom operator must explain THAT score: reference computed with plain TensorFlow"""
+    import tensorflow as tf
+    import xplique.attributions as A
+    rs = np.random.RandomState(case["seed"] % (1 << 31))
+    h, w, c = case["shape"]
+    inp = tf.keras.Input((h, w, c))
+    conv = tf.keras.layers.Conv2D(2, 2, activation="relu", name="conv")
+    x = conv(inp)
+    x = tf.keras.layers.Flatten()(x)
+    out = tf.keras.layers.Dense(3, name="logits")(x)
+    model = tf.keras.Model(inp, out)
+    model.set_weights([(rs.randint(-2, 3, size=v.shape) / 2.0 + 0.25).astype(np.float32) for v in model.get_weights()])
+    xs = (rs.randint(0, 9, size=(case["n"], h, w, c)) / 8.0).astype(np.float32)
+    ts = np.eye(3, dtype=np.float32)[rs.randint(0, 3, size=case["n"])]
+    op = lambda m, inputs, targets: tf.reduce_sum(m(inputs) ** 2 * targets, axis=-1)
+    cls = getattr(A, case["method"])
+    with_op = np.asarray(cls(model, operator=op).explain(xs, ts))
+    default = np.asarray(cls(model).explain(xs, ts))
+    # reference for Grad-CAM (not ++): relu(sum_k mean_ab(d score / d A_k) A_k), bicubic resize
+    two = tf.keras.Model(model.input, [conv.output, model.output])
+    xt = tf.constant(xs)
+    with tf.GradientTape() as tape:
+        a, p = two(xt)
+        score = tf.reduce_sum(p ** 2 * tf.constant(ts), axis=-1)
+    g = tape.gradient(score, a)
+    ref = None
+    if case["method"] == "GradCAM":
+        wts = tf.reduce_mean(g, axis=(1, 2), keepdims=True)
+        cam = tf.nn.relu(tf.reduce_sum(wts * a, axis=-1))
+        ref = np.asarray(tf.image.resize(cam[..., None], (h, w), method=tf.image.ResizeMethod.BICUBIC))
+    return dict(equals_default=bool(np.allclose(with_op, default, rtol=1e-6, atol=1e-7)),
+                equals_reference=None if ref is None else bool(np.allclose(with_op, ref, rtol=1e-4, atol=1e-5)),
+                default_differs_from_reference=None if ref is None else bool(not np.allclose(default, ref, rtol=1e-3, atol=1e-4)))
+
+
 def run_impl(case):
-    return dict(dispatch=run_dispatch, operator=run_operator, select=run_select, olayer=run_olayer)[case["stream"]](case)
+    return dict(dispatch=run_dispatch, operator=run_operator, select=run_select, olayer=run_olayer,
+                gradcam_op=run_gradcam_op)[case["stream"]](case)
 
 
 # ----------------------------------------------------------------------------- Coq side
@@ -539,6 +587,11 @@ def code_to_oo(code):
 
 def coq_term(case, res):
     s = case["stream"]
+    if s == "gradcam_op":
+        # the property: the custom operator is what gets explained (Grad-CAM: equals the reference; Grad-CAM++: at least it
+        # must not coincide with the default-score explanation)
+        ok = (res["equals_reference"] is True) if res["equals_reference"] is not None else (not res["equals_default"])
+        return core.cbool(bool(ok))
     if s == "dispatch":
         k, sp = case["kind"], coq_spec(case["spec"])
         parts = []
@@ -622,6 +675,15 @@ def coq_term(case, res):
         parts.append(f"oeq (saliency_with wb_model net (Some {ref}) {core.cqlist(x)} {core.cqlist(t)}) {core.cqlist(ms)}")
         parts.append(f"oeq (gradinput_with wb_model net (Some {ref}) {core.cqlist(x)} {core.cqlist(t)}) {core.cqlist(mg)}")
     return f"(let net := {net} in " + " && ".join(parts) + ")"
+
+
+def classify_known(case, res, err, known):
+    """KNOWN-FINDING C02-gradcam-operator: Grad-CAM / Grad-CAM++ ignore `operator=` — only when the explanation built with
+    the custom operator is exactly the default-score explanation"""
+    if err is None and res is not None and case.get("stream") == "gradcam_op" and res.get("equals_default") and \
+            any(e.get("id") == "C02-gradcam-operator" and e.get("status") == "known" for e in known):
+        return "C02-gradcam-operator"
+    return None
 
 
 def explain_failure(case, res, model):
